@@ -76,6 +76,8 @@ func init() {
 			continue
 		}
 		switch f[0] {
+		case "svc":
+			fmt.Println(verifSvc(f[1], f[2]))
 		case "sid":
 			fmt.Println(verifHex(shortID(string(verifUnhex(f[1])), verifUnhex(f[2]))))
 		case "cis", "cisn":
